@@ -26,13 +26,15 @@ class XRefNode(ConfigScalar(str)):
         chain = [NodePath.get_str_path(path)]
         curr = self
         while isinstance(curr, XRefNode):
+            if str(NodePath.get_list_path(str(curr))) in chain:
+                raise ValueError(f'Cyclic reference detected while following a chain of references: {chain + [str(curr)]}')
             try:
                 ref = ctx.get_node(curr)
             except KeyError:
                 msg = f'Referenced node {str(curr)!r} is missing, while following a chain of references: {chain}'
                 raise ValueError(msg) from None
 
-            chain.append(str(curr))
+            chain.append(str(NodePath.get_list_path(str(curr))))
             curr = ref
         assert curr is not self
         return ctx.evaluate_node(curr, prefix=chain[-1])
